@@ -281,9 +281,10 @@ class Domain:
             if attr in cls:
                 return BoundMethod(base, cls[attr])
             shp = self.field_shapes.get((base.cls, attr))
-            if shp:
+            if shp and not (isinstance(shp, str) and shp.startswith('ref:')) and shp != 'untracked':
                 v = self.fresh(shp, '%s.%s' % (base.oid, attr), st)
-                return v            # untracked in the heap: every read is a fresh havoc of the right shape
+                st.heap[key] = v    # first read of a declared field of an object that was not initialised eagerly: stable from now on
+                return v
             return UNK
         if isinstance(base, Rec):
             if attr in base.fields:
